@@ -537,9 +537,6 @@ func (c *fragCtx) assign(x *ast.AssignStmt, rest func() string) string {
 		okv, okid2 := x.Lhs[1].(*ast.Ident)
 		if isIdx && okid && okid2 && u.Name == "_" && x.Tok == token.DEFINE {
 			if _, isMap := c.typeOf(ie.X).Underlying().(*types.Map); isMap {
-				if _, isId := ie.X.(*ast.Ident); !isId {
-					return c.fail("map expression")
-				}
 				return emit("let " + lv(okv.Name) + " := (mapHas " + c.expr(ie.X) + " " + c.expr(ie.Index) + ")\n")
 			}
 		}
@@ -651,7 +648,9 @@ func (c *fragCtx) trIf(x *ast.IfStmt, after []ast.Stmt, k func() string) string 
 			if !ok {
 				return c.fail("if init")
 			}
-			if id.Name != "_" && c.countDefs(id.Name) != 1 {
+			// several `if` statements may declare the same name in their init statements (each is scoped to its own
+			// `if`); what must not exist is a declaration of that name anywhere else, which the Lean `let` could capture
+			if id.Name != "_" && c.countDefs(id.Name) != c.countIfInitDefs(id.Name) {
 				return c.fail("if init re-declares %s", id.Name)
 			}
 		}
@@ -751,6 +750,24 @@ func (c *fragCtx) noShadow(stmts []ast.Stmt) bool {
 		})
 	}
 	return ok
+}
+
+// countIfInitDefs: how many of the declarations of `name` are made by the init statement of an `if`.
+func (c *fragCtx) countIfInitDefs(name string) int {
+	n := 0
+	ast.Inspect(c.f.decl, func(m ast.Node) bool {
+		if is, ok := m.(*ast.IfStmt); ok && is.Init != nil {
+			if as, ok := is.Init.(*ast.AssignStmt); ok && as.Tok == token.DEFINE {
+				for _, l := range as.Lhs {
+					if id, ok := l.(*ast.Ident); ok && id.Name == name && c.f.pkg.TypesInfo.Defs[id] != nil {
+						n++
+					}
+				}
+			}
+		}
+		return true
+	})
+	return n
 }
 
 // countDefs: how many distinct objects named `name` the function declares.
